@@ -128,7 +128,7 @@ PROPS = {
     "C09": {
         "test": "TestC09",
         "lean_modules": ["Gittuf.Props.C09"],
-        "n": {"quick": 24, "thorough": 600},
+        "n": {"quick": 40, "thorough": 800},
         "min_per_shard": 6,
         "rule": "1-3 pushes to a branch protected by a threshold 1..3 rule over Person/Key principals; 0-2 GitHub apps (trusted or not); "
                 "attestation states with reference authorizations and code-review approvals for the exact change or another change, "
@@ -297,7 +297,7 @@ PROPS = {
     "C08": {
         "test": "TestC08",
         "lean_modules": ["Gittuf.Props.C08", "Gittuf.Proofs.CacheRefine"],
-        "n": {"quick": 6, "thorough": 150},
+        "n": {"quick": 6, "thorough": 120},
         "min_per_shard": 2,
         "rule": "histories as for C01 (key-disjoint principals); each is verified by the real verifier (full / latest-only / from-entry for "
                 "every reference) under the cache configurations: no cache; no cache, repeated in reverse order; cache populated at the "
